@@ -1,6 +1,7 @@
 """Cases for the nonlinear solvers (cpl, cp, gp): families x linear parts x configurations."""
 import random
 from fractions import Fraction as Fr
+PMAP_TIMEOUT = int(__import__('os').environ.get('VERIF_PMAP_TIMEOUT', '300'))
 from harness import nlfam
 
 
@@ -16,8 +17,23 @@ def make_cases(inst, rnd, per_inst=1, families=("quadcp", "quadcpl", "acent", "g
                 cases.append({"family": "quadcp", "entry": "cp", "fam": fam, "lin": I, "id": I["id"]})
             elif fam_name == "quadcpl":
                 fam = nlfam.gen_quad(rnd, n, rnd.randint(1, 2), I["x0"])
-                cases.append({"family": "quadcpl", "entry": "cpl", "fam": fam, "lin": I, "id": I["id"], "first": 1,
-                              "c": [rnd.randint(-3, 3) for _ in range(n)]})
+                cvec = [rnd.randint(-3, 3) for _ in range(n)]
+                lin = I
+                if rnd.random() < 0.35:
+                    # large data whose contributions to the documented dual normaliser c + Df(x0)'1 + G'e nearly cancel
+                    from harness import alpha as _al
+                    sc = rnd.choice([20, 50])
+                    lin = dict(I)
+                    lin["G"] = [[sc * v for v in col] for col in I["G"]]
+                    lin["h"] = [sc * v for v in I["h"]]
+                    lin["s0"] = [sc * v for v in I["s0"]]
+                    w = _al.wt(I["dims"])
+                    e = [int(v) for v in _al.identity(I["dims"])]
+                    x0f = [Fr(v) for v in I["x0"]]
+                    g = [sum(fam.grad_exact(k, x0f)[j] for k in range(1, len(fam.fs))) for j in range(n)]
+                    Ge = [sum(w[r] * lin["G"][j][r] * e[r] for r in range(len(w))) for j in range(n)]
+                    cvec = [int(-(g[j] + Ge[j])) + rnd.randint(-1, 1) for j in range(n)]
+                cases.append({"family": "quadcpl", "entry": "cpl", "fam": fam, "lin": lin, "id": I["id"], "first": 1, "c": cvec})
             elif fam_name == "acent":
                 # minimize -sum w_i log x_i  s.t.  a'x = b (a > 0: bounded), x > 0; start strictly inside
                 nn = rnd.randint(2, 4)
@@ -113,8 +129,10 @@ def _run(args):
 def run_cases(ck, jobs, name):
     import multiprocessing as mp
     from harness import soltrace
-    with mp.Pool(16) as pool:
-        results = pool.map(_run, jobs, chunksize=1)
+    from harness.core import pmap
+    results = pmap(ck, _run, jobs, "nlsuite", timeout=PMAP_TIMEOUT, chunksize=1)
+    if results is None:
+        ck.finish()
     runs = [r for rs in results for r in rs]
     for r in runs:
         if "harness_error" in r:
